@@ -17,15 +17,17 @@ C. the property's own predicate on the REAL compiled code: AccelerationEval
    central terms, and summation density > 0.  Failures -> R.prop_fail with a
    replayable case.
 """
-import concurrent.futures
-import inspect
+import collections
 import json
 import math
+import multiprocessing as mp
 import os
 import random
+import signal
 import struct
 import sys
 import time
+import traceback
 import types
 
 import numpy as np
@@ -156,35 +158,51 @@ class C09Copy(Equation):
 # --------------------------------------------------------------------------
 # C. system-level oracle on the real compiled code
 
-def gen_system(seed, dim, sizes, wdeltap):
+H_STYLES = 5
+
+
+def gen_array(rng, dim, n, dx, style, a=0):
+    """one random particle array as a dict of numpy arrays"""
+    d = {}
+    d['x'] = rng.uniform(0, 1, n)
+    d['y'] = rng.uniform(0, 1, n) if dim > 1 else np.zeros(n)
+    d['z'] = rng.uniform(0, 1, n) if dim > 2 else np.zeros(n)
+    if style == 0:
+        d['h'] = dx * rng.uniform(1.0, 1.6, n)         # per-particle h
+    elif style == 1:
+        d['h'] = np.ones(n) * dx * 1.3                 # uniform h
+    elif style == 2:
+        d['h'] = dx * rng.choice([0.8, 1.2, 2.0], n)   # strongly varying h
+    elif style == 3:
+        d['h'] = dx * 0.6 * 4.0 ** rng.uniform(0, 1, n)    # log-uniform over a ratio of 4
+    else:
+        d['h'] = dx * [0.7, 1.5, 1.0][a % 3] * rng.uniform(1.0, 1.15, n)   # one resolution per array
+    for p, (lo, hi) in RANDOM_PROPS.items():
+        d[p] = rng.uniform(lo, hi, n)
+    if dim < 3:
+        d['w'] = np.zeros(n)
+        d['what'] = np.zeros(n)
+    if dim < 2:
+        d['v'] = np.zeros(n)
+        d['vhat'] = np.zeros(n)
+    d['pavg'] = np.ones(n) * 0.37
+    return d
+
+
+def gen_system(seed, dim, sizes, wdeltap, hstyle=None, hscale=1.0):
     """random closed system as plain dicts (JSON-able)"""
     rng = np.random.RandomState(seed % (2 ** 31))
     ntot = sum(sizes)
-    dx = 1.0 / ntot ** (1.0 / dim)
+    dx = hscale / ntot ** (1.0 / dim)
     style = rng.randint(0, 3)
+    if hstyle is not None:
+        style = hstyle
     arrs = []
     for a, n in enumerate(sizes):
-        d = {}
-        d['x'] = rng.uniform(0, 1, n)
-        d['y'] = rng.uniform(0, 1, n) if dim > 1 else np.zeros(n)
-        d['z'] = rng.uniform(0, 1, n) if dim > 2 else np.zeros(n)
-        if style == 0:
-            d['h'] = dx * rng.uniform(1.0, 1.6, n)         # per-particle h
-        elif style == 1:
-            d['h'] = np.ones(n) * dx * 1.3                 # uniform h
-        else:
-            d['h'] = dx * rng.choice([0.8, 1.2, 2.0], n)   # strongly varying h
-        for p, (lo, hi) in RANDOM_PROPS.items():
-            d[p] = rng.uniform(lo, hi, n)
-        if dim < 3:
-            d['w'] = np.zeros(n)
-            d['what'] = np.zeros(n)
-        if dim < 2:
-            d['v'] = np.zeros(n)
-            d['vhat'] = np.zeros(n)
-        d['pavg'] = np.ones(n) * 0.37
+        d = gen_array(rng, dim, n, dx, style, a)
         arrs.append({k: [float(x) for x in v] for k, v in d.items()})
-    return {'dim': dim, 'arrays': arrs, 'wdeltap': wdeltap, 'n_exp': 4.0}
+    return {'dim': dim, 'arrays': arrs, 'wdeltap': wdeltap, 'n_exp': 4.0,
+            'dx': dx, 'hstyle': int(style)}
 
 
 def build_arrays(system, neq):
@@ -280,14 +298,151 @@ def judge(label, tag, m):
     return bad
 
 
+
+# --------------------------------------------------------------------------
+# the neighbour-search layer: classes x their public options x cache x
+# histories on one reused NNPS object / AccelerationEval
+
+# class -> {option: values}; every value of every option is used on every run
+# (plan_nn).  Not exercised: ExtendedSpatialHashNNPS(approximate=True)
+# (documented as an approximation of the search sphere), test_parallel
+# (OpenMP), domain managers, GPU classes, and DictBoxSortNNPS: it implements
+# only the Python-level get_nearest_particles_no_cache, not the nogil
+# find_nearest_neighbors the generated evaluator calls, so AccelerationEval
+# sees no neighbour at all with it (every sum is trivially zero; reported as a
+# side finding, nothing of the property can be observed through it).
+NNPS_MATRIX = collections.OrderedDict([
+    ('LinkedListNNPS', {}),
+    ('BoxSortNNPS', {}),
+    ('SpatialHashNNPS', {'table_size': [131072, 61, 7]}),
+    ('ExtendedSpatialHashNNPS', {'H': [1, 2, 3, 4], 'table_size': [131072, 17]}),
+    ('CellIndexingNNPS', {}),
+    ('ZOrderNNPS', {}),
+    ('ExtendedZOrderNNPS', {'H': [1, 2, 3], 'asymmetric': [False, True]}),
+    ('StratifiedHashNNPS', {'H': [1, 2, 3], 'num_levels': [1, 2, 3, 4],
+                            'table_size': [131072, 131072, 37]}),
+    ('StratifiedSFCNNPS', {'num_levels': [1, 2, 3]}),
+    ('OctreeNNPS', {'leaf_max_particles': [10, 1, 3, 40]}),
+    ('CompressedOctreeNNPS', {'leaf_max_particles': [10, 1, 3, 40]}),
+])
+NO_FIXED_H = ()
+NO_CACHE = ()
+
+HIST_KINDS = ['single', 'again', 'move', 'shrink-grow', 'shrink-grow-more',
+              'grow-shrink', 'shrink-shrink-grow', 'grow-grow', 'empty-refill',
+              'random']
+
+
+def gen_history(rng, kind, sizes):
+    """list of operations applied between evaluations on the SAME objects;
+    every operation is followed by nnps.update_domain(); nnps.update() and an
+    evaluation that is judged like the first one"""
+    narr = len(sizes)
+    cur = list(sizes)
+
+    def op(name, frac=0.0, arr=None):
+        a = rng.randrange(narr) if arr is None else arr
+        o = {'op': name, 'arr': a, 'seed': rng.randrange(2 ** 30)}
+        if name == 'remove':
+            o['n'] = min(cur[a], max(1, int(round(frac * sizes[a]))))
+            o['how'] = rng.choice(['random', 'front', 'back', 'stride'])
+            cur[a] -= o['n']
+        elif name == 'add':
+            o['n'] = max(1, int(round(frac * sizes[a])))
+            cur[a] += o['n']
+        return o
+
+    f = rng.uniform(0.1, 0.6)
+    if kind == 'single':
+        return []
+    if kind == 'again':
+        return [op('noop')]
+    if kind == 'move':
+        return [op('move'), op('move')][:rng.choice([1, 2])]
+    if kind == 'shrink-grow':           # back to at most the first size
+        a = rng.randrange(narr)
+        return [op('remove', f, a), op('add', f * rng.uniform(0.3, 1.0), a)]
+    if kind == 'shrink-grow-more':      # beyond the first size
+        a = rng.randrange(narr)
+        return [op('remove', f, a), op('add', f * rng.uniform(1.1, 2.0), a)]
+    if kind == 'grow-shrink':
+        a = rng.randrange(narr)
+        return [op('add', f, a), op('remove', f * rng.uniform(0.5, 1.5), a)]
+    if kind == 'shrink-shrink-grow':
+        a = rng.randrange(narr)
+        return [op('remove', f * 0.5, a), op('remove', f * 0.5, a), op('add', f, a)]
+    if kind == 'grow-grow':
+        a = rng.randrange(narr)
+        return [op('add', f, a), op('add', f, a)]
+    if kind == 'empty-refill':
+        if narr < 2:                    # a system without any particle is not a case
+            a = 0
+            return [op('remove', 0.9, a), op('add', 0.9, a)]
+        a = rng.randrange(narr)
+        return [op('remove', 1.0, a), op('add', rng.uniform(0.3, 1.2), a)]
+    ops = []
+    for _ in range(rng.randint(2, 4)):
+        ops.append(op(rng.choice(['remove', 'add', 'move', 'noop', 'remove', 'add']),
+                      rng.uniform(0.05, 0.5)))
+    return ops
+
+
+def apply_op(system, pas, o):
+    """one population / state change on the live particle arrays"""
+    pa = pas[o['arr']]
+    rng = np.random.RandomState(o['seed'])
+    n = pa.get_number_of_particles()
+    dim = system['dim']
+    if o['op'] == 'noop':
+        return
+    if o['op'] == 'remove':
+        k = min(o['n'], n)
+        if o['how'] == 'front':
+            idx = np.arange(k)
+        elif o['how'] == 'back':
+            idx = np.arange(n - k, n)
+        elif o['how'] == 'stride':
+            idx = np.arange(0, n, max(1, n // max(k, 1)))[:k]
+        else:
+            idx = rng.choice(n, k, replace=False)
+        pa.remove_particles(np.asarray(idx, dtype=int))
+    elif o['op'] == 'add':
+        d = gen_array(rng, dim, o['n'], system['dx'], system['hstyle'], o['arr'])
+        pa.add_particles(**d)
+    elif o['op'] == 'move':
+        dx = system['dx']
+        for c in ('x', 'y', 'z')[:dim]:
+            v = pa.get_carray(c).get_npy_array()
+            v += rng.uniform(-0.7, 0.7, n) * dx
+        h = pa.get_carray('h').get_npy_array()
+        if system['hstyle'] != 1:
+            h *= rng.choice([1.0, 1.0, 0.8, 1.3], n)
+        else:
+            h *= rng.choice([0.8, 1.3])
+    else:
+        raise ValueError('unknown history operation %r' % (o,))
+
+
+class Staged(Exception):
+    def __init__(self, stage, exc):
+        Exception.__init__(self, '%s: %s: %s' % (stage, type(exc).__name__, str(exc)[:300]))
+        self.stage = stage
+
+
 def run_config(ae_cache, family, kname, cfg):
-    """cfg: dict(dim, sizes, seed, nnps, cache, wdeltap [, system])"""
+    """cfg: dict(dim, sizes, seed, nnps, cache, wdeltap [, fixed_h, sort_gids,
+    knobs, kernel_radius, hstyle, hscale, history, system]); returns
+    (list of per-round measurements, initial system)"""
     from pysph.base import nnps as NN
     dim = cfg['dim']
-    system = cfg.get('system') or gen_system(cfg['seed'], dim, cfg['sizes'], cfg['wdeltap'])
-    pas = build_arrays(system, len(FAMILIES[family]))
-    kernel = getattr(KM, kname)(dim=dim)
-    ae = make_eval(pas, family, kernel, dim)
+    system = cfg.get('system') or gen_system(cfg['seed'], dim, cfg['sizes'], cfg['wdeltap'],
+                                             cfg.get('hstyle'), cfg.get('hscale', 1.0))
+    try:
+        pas = build_arrays(system, len(FAMILIES[family]))
+        kernel = getattr(KM, kname)(dim=dim)
+        ae = make_eval(pas, family, kernel, dim)
+    except Exception as e:      # noqa
+        raise Staged('compile', e)
     if cfg.get('sort_gids'):
         # valid gids, so that the neighbours really are sorted by gid (with the
         # default gid of UINT_MAX sort_gids falls back to the index)
@@ -298,46 +453,301 @@ def run_config(ae_cache, family, kname, cfg):
             off += n
     # fixed_h only says that h does not change with time; it must not change
     # the (symmetric) neighbour criterion
-    nnps = getattr(NN, cfg['nnps'])(dim=dim, particles=pas, cache=cfg['cache'],
-                                    fixed_h=bool(cfg.get('fixed_h', False)),
-                                    sort_gids=bool(cfg.get('sort_gids', False)))
-    nnps.update()
-    ae.set_nnps(nnps)
-    ae.compute(0.0, 0.1)
-    return measure(pas, family), system
-
-
-def sys_task(task):
-    """one worker task = one generated module (family, kernel, #arrays) and
-    all its configurations; returns list of records"""
-    family, kname, narr, cfgs = task
-    devnull = os.open(os.devnull, os.O_WRONLY)
-    os.dup2(devnull, 1)          # compiler chatter
-    t0 = time.time()
-    recs = []
-    for cfg in cfgs:
+    kw = dict(cache=cfg['cache'], sort_gids=bool(cfg.get('sort_gids', False)))
+    if cfg['nnps'] not in NO_FIXED_H:
+        kw['fixed_h'] = bool(cfg.get('fixed_h', False))
+    if cfg.get('kernel_radius'):
+        kw['radius_scale'] = kernel.radius_scale      # what Application / SPHEvaluator pass
+    kw.update(cfg.get('knobs') or {})
+    rounds = []
+    try:
+        nnps = getattr(NN, cfg['nnps'])(dim=dim, particles=pas, **kw)
+        nnps.update()
+        ae.set_nnps(nnps)
+        ae.compute(0.0, 0.1)
+    except Exception as e:      # noqa
+        raise Staged('round-0', e)
+    rounds.append(measure(pas, family))
+    for r, o in enumerate(cfg.get('history') or []):
         try:
-            meas, system = run_config(None, family, kname, cfg)
+            apply_op(system, pas, o)
+            if cfg.get('sort_gids') and o['op'] == 'add':
+                off = 0
+                for pa in pas:
+                    n = pa.get_number_of_particles()
+                    pa.get_carray('gid').get_npy_array()[:] = np.arange(off, off + n)[::-1]
+                    off += n
+            nnps.update_domain()
+            nnps.update()
+            ae.compute(0.0, 0.1)
         except Exception as e:      # noqa
-            recs.append({'family': family, 'kernel': kname, 'cfg': cfg,
-                         'error': '%s: %s' % (type(e).__name__, str(e)[:300])})
-            continue
-        for label, tag, kw in FAMILIES[family]:
-            bad = judge(label, tag, meas[label])
-            rec = {'family': family, 'kernel': kname, 'cfg': cfg, 'label': label,
-                   'tag': tag, 'm': meas[label], 'bad': bad}
-            if bad:
-                rec['system'] = system
-            recs.append(rec)
-    return recs, time.time() - t0
+            raise Staged('round-%d' % (r + 1), e)
+        rounds.append(measure(pas, family))
+    return rounds, system
+
+
+def gen_cache_case(rng, cname):
+    """one history on one caching NNPS object for the model tie (JSON-able)"""
+    dim = rng.choice([1, 2, 2, 3])
+    narr = rng.choice([1, 1, 2])
+    sizes = [rng.randint(3, {1: 14, 2: 30, 3: 40}[dim]) for _ in range(narr)]
+    knobs = {}
+    for k, vals in NNPS_MATRIX[cname].items():
+        knobs[k] = rng.choice(vals)
+    kinds = [k for k in HIST_KINDS if k != 'single']
+    hist = gen_history(rng, rng.choice(kinds + ['shrink-grow', 'shrink-shrink-grow']), sizes)
+    dst = rng.randrange(narr)
+    return {'nnps': cname, 'knobs': knobs, 'dim': dim, 'sizes': sizes, 'dst': dst,
+            'src': rng.randrange(narr), 'seed': rng.randrange(2 ** 30), 'history': hist,
+            'hstyle': rng.choice([0, 1, 2, 3]), 'junk': rng.choice([0, 1, 7, 4294967295]),
+            'qseed': rng.randrange(2 ** 30), 'layer': 'cache-tie', 'cache': True}
+
+
+def run_cache_case(cfg):
+    """the real NeighborCache through a history: per round the search's own
+    lists (get_nearest_particles_no_cache on the same object) and what the
+    cache hands out for a sequence of queries; returns the model's input line
+    and the lists handed out"""
+    from pysph.base import nnps as NN
+    from cyarray.api import UIntArray
+    dim = cfg['dim']
+    system = gen_system(cfg['seed'], dim, cfg['sizes'], 1.0, cfg['hstyle'], 1.0)
+    pas = []
+    for a, d in enumerate(system['arrays']):
+        pas.append(get_particle_array(name='a%d' % a, **{k: np.array(d[k]) for k in
+                                                          ('x', 'y', 'z', 'h', 'm', 'rho')}))
+    narr = len(pas)
+    dst, src = cfg['dst'], cfg['src']
+    nn = getattr(NN, cfg['nnps'])(dim=dim, particles=pas, cache=True, **cfg['knobs'])
+    n0 = pas[dst].get_number_of_particles()
+    qrng = random.Random(cfg['qseed'])
+    nbrs = UIntArray()
+    toks = ['cachehist', 'junk=%d' % cfg['junk'], 'n0=%d' % n0,
+            'rounds=%d' % (len(cfg['history']) + 1)]
+    served = []
+    for r in range(len(cfg['history']) + 1):
+        if r > 0:
+            o = cfg['history'][r - 1]
+            if o['op'] in ('remove', 'add'):
+                # positions only: the tie is about the cache, not the equations
+                pa = pas[o['arr']]
+                rs = np.random.RandomState(o['seed'])
+                n = pa.get_number_of_particles()
+                if o['op'] == 'remove':
+                    k = min(o['n'], n)
+                    pa.remove_particles(np.asarray(rs.choice(n, k, replace=False), dtype=int))
+                else:
+                    d = gen_array(rs, dim, o['n'], system['dx'], system['hstyle'], o['arr'])
+                    pa.add_particles(**{k: d[k] for k in ('x', 'y', 'z', 'h', 'm', 'rho')})
+            else:
+                apply_op(system, pas, o)
+            nn.update_domain()
+            nn.update()
+        npd = pas[dst].get_number_of_particles()
+        off, flat = [0], []
+        for d in range(npd):
+            nn.get_nearest_particles_no_cache(src, dst, d, nbrs, False)
+            flat += sorted(int(x) for x in nbrs.get_npy_array())
+            off.append(len(flat))
+        nn.set_context(src, dst)
+        ops, out = [], []
+        nq = qrng.randint(1, 2 * npd + 2) if npd else 0
+        for _ in range(nq):
+            if qrng.random() < 0.12:
+                ops.append(-1)
+                nn.cache[dst * narr + src].find_all_neighbors()
+            else:
+                d = qrng.randrange(npd)
+                ops.append(d)
+                nn.get_nearest_particles(src, dst, d, nbrs)
+                out.append(sorted(int(x) for x in nbrs.get_npy_array()))
+        if not nq and qrng.random() < 0.5:
+            ops.append(-1)
+            nn.cache[dst * narr + src].find_all_neighbors()
+        toks += ['np%d=%d' % (r, npd), 'off%d=%s' % (r, H.ilist(off)),
+                 'nb%d=%s' % (r, H.ilist(flat)), 'ops%d=%s' % (r, H.ilist(ops))]
+        served.append(out)
+    return {'line': ' '.join(toks), 'served': served}
+
+
+def run_one(family, kname, cfg):
+    """records of one configuration (one per equation), or one error record"""
+    if family == 'cache-tie':
+        try:
+            rec = run_cache_case(cfg)
+        except Exception as e:      # noqa
+            return [{'family': family, 'kernel': kname, 'cfg': cfg, 'stage': 'round',
+                     'error': '%s: %s' % (type(e).__name__, str(e)[:300])}]
+        return [dict(rec, family=family, kernel=kname, cfg=cfg, tie=True)]
+    try:
+        rounds, system = run_config(None, family, kname, cfg)
+    except Staged as e:
+        return [{'family': family, 'kernel': kname, 'cfg': cfg, 'error': str(e),
+                 'stage': e.stage}]
+    except Exception as e:      # noqa
+        return [{'family': family, 'kernel': kname, 'cfg': cfg, 'stage': 'harness',
+                 'error': '%s: %s' % (type(e).__name__, traceback.format_exc()[-600:])}]
+    recs = []
+    for label, tag, kw in FAMILIES[family]:
+        bad, worst = [], None
+        for r, meas in enumerate(rounds):
+            b = judge(label, tag, meas[label])
+            if b and not bad:
+                bad = [(what, 'round %d: %s' % (r, demand), observed) for what, demand, observed in b]
+                worst = dict(meas[label], round=r)
+        m = worst or dict(rounds[-1][label], round=len(rounds) - 1)
+        m['scale_all_rounds'] = float(sum(x[label]['lin_scale'] for x in rounds))
+        rec = {'family': family, 'kernel': kname, 'cfg': cfg, 'label': label,
+               'tag': tag, 'm': m, 'bad': bad, 'rounds': len(rounds)}
+        if bad:
+            rec['system'] = system
+        recs.append(rec)
+    return recs
+
+
+def _child(task, w):
+    """one worker process = one generated module (family, kernel, #arrays) and
+    all its configurations; every finished configuration is reported at once so
+    that the parent knows which one a crash or a hang belongs to"""
+    try:
+        try:
+            os.setsid()                 # own process group: compilers die with us
+        except OSError:
+            pass
+        devnull = os.open(os.devnull, os.O_WRONLY)
+        os.dup2(devnull, 1)             # compiler chatter
+        family, kname, narr, cfgs = task
+        for i, cfg in enumerate(cfgs):
+            w.send(('start', i))
+            w.send(('recs', i, run_one(family, kname, cfg)))
+        w.send(('done',))
+        w.close()
+    finally:
+        os._exit(0)
+
+
+T_FIRST = int(os.environ.get('C09_T_FIRST', '900'))    # first configuration: includes the compile
+T_CFG = int(os.environ.get('C09_T_CFG', '240'))
+
+
+class Runner(object):
+    """runs tasks in forked children with per-configuration progress; a child
+    that dies or stops answering costs exactly the configuration it was
+    running (reported), the rest of its task is re-queued"""
+
+    def __init__(self, tasks, nproc):
+        self.queue = collections.deque(
+            sorted(tasks, key=lambda t: -t[2] * len(FAMILIES.get(t[0], ())) * (1 + len(t[3]))))
+        self.nproc = max(1, nproc)
+        self.live = {}
+        self.ctx = mp.get_context('fork')
+        self.ntasks = len(tasks)
+        self.t0 = time.time()
+        self.stats = {'crash': 0, 'timeout': 0}
+
+    def _start(self, task):
+        r, w = self.ctx.Pipe(duplex=False)
+        p = self.ctx.Process(target=_child, args=(task, w))
+        p.daemon = True
+        p.start()
+        w.close()
+        self.live[r] = {'p': p, 'task': task, 'cur': None, 'done': -1,
+                        't': time.time(), 'first': True}
+
+    @staticmethod
+    def _reap(p, r):
+        try:
+            os.killpg(p.pid, signal.SIGKILL)
+        except (OSError, ProcessLookupError):
+            pass
+        if p.is_alive():
+            p.kill()
+        p.join(30)
+        try:
+            r.close()
+        except OSError:
+            pass
+
+    def _lost(self, st, status, why):
+        family, kname, narr, cfgs = st['task']
+        i = st['cur'] if st['cur'] is not None else st['done'] + 1
+        out = []
+        if i < len(cfgs):
+            self.stats[status] += 1
+            out.append({'family': family, 'kernel': kname, 'cfg': cfgs[i], 'error': why,
+                        'stage': status})
+            if i + 1 < len(cfgs):
+                self.queue.append((family, kname, narr, cfgs[i + 1:]))
+        return out
+
+    def start(self):
+        """first batch of children (they compile while the parent does parts A
+        and B; their messages wait in the pipes)"""
+        while self.queue and len(self.live) < self.nproc:
+            self._start(self.queue.popleft())
+        return self
+
+    def run(self):
+        """generator of records"""
+        from multiprocessing.connection import wait
+        for st in self.live.values():
+            st['t'] = time.time()
+        while self.queue or self.live:
+            while self.queue and len(self.live) < self.nproc:
+                self._start(self.queue.popleft())
+            for r in wait(list(self.live), timeout=1.0):
+                st = self.live[r]
+                try:
+                    msg = r.recv()
+                except (EOFError, OSError):
+                    msg = None
+                if msg is None:
+                    del self.live[r]
+                    st['p'].join(20)
+                    code = st['p'].exitcode
+                    self._reap(st['p'], r)
+                    for rec in self._lost(st, 'crash', 'worker process died: %s' % _signame(code)):
+                        yield rec
+                    continue
+                st['t'] = time.time()
+                if msg[0] == 'start':
+                    st['cur'] = msg[1]
+                elif msg[0] == 'recs':
+                    st['cur'] = None
+                    st['done'] = msg[1]
+                    st['first'] = False
+                    for rec in msg[2]:
+                        yield rec
+                elif msg[0] == 'done':
+                    del self.live[r]
+                    st['p'].join(20)
+                    self._reap(st['p'], r)
+            now = time.time()
+            for r, st in list(self.live.items()):
+                tmo = T_FIRST if st['first'] else T_CFG
+                if now - st['t'] > tmo:
+                    del self.live[r]
+                    self._reap(st['p'], r)
+                    for rec in self._lost(st, 'timeout',
+                                          'no answer within %d s: worker killed' % tmo):
+                        yield rec
+
+
+def _signame(code):
+    if code is None:
+        return 'no exit status'
+    if code < 0:
+        try:
+            return 'killed by %s' % signal.Signals(-code).name
+        except ValueError:
+            return 'killed by signal %d' % -code
+    return 'exit status %d' % code
 
 
 KERNELS_ALL = ['CubicSpline', 'Gaussian', 'QuinticSpline', 'WendlandQuintic',
                'SuperGaussian', 'WendlandQuinticC4', 'WendlandQuinticC6']
 KERNELS_1D = ['WendlandQuinticC2_1D', 'WendlandQuinticC4_1D', 'WendlandQuinticC6_1D']
 NNPS_OK = ['LinkedListNNPS', 'BoxSortNNPS', 'SpatialHashNNPS']
-# the z-order family has a known multi-array defect (C01 finding F1): it is
-# exercised with one array only
 NNPS_SINGLE = ['ZOrderNNPS', 'CellIndexingNNPS', 'OctreeNNPS', 'StratifiedHashNNPS']
 
 
@@ -347,6 +757,84 @@ def kernel_dims(kname):
     if kname == 'QuinticSpline':
         return [2]          # the class supports 2D only... checked at run time
     return [1, 2, 3]
+
+
+def nn_variants(rng):
+    """(class, options) such that every value of every option of every class
+    occurs, each class with its defaults too"""
+    out = []
+    for cname, knobs in NNPS_MATRIX.items():
+        out.append((cname, {}))
+        names = sorted(knobs)
+        if not names:
+            continue
+        width = max(len(knobs[k]) for k in names)
+        cols = {}
+        for k in names:
+            vals = list(knobs[k])
+            rng.shuffle(vals)
+            cols[k] = vals
+        # `width` rows cover every value once; two more shifted passes pair the
+        # values of different options differently
+        for shift in range(3):
+            for i in range(width):
+                kn = {}
+                for j, k in enumerate(names):
+                    v = cols[k]
+                    kn[k] = v[(i + shift * j) % len(v)]
+                if (cname, kn) not in out:
+                    out.append((cname, kn))
+    return out
+
+
+def plan_nn(rng, tier, slots, narr_of, wide=False):
+    """the neighbour-search layer: a list of configurations per slot (slot =
+    one generated module of the main plan, which they share); classes x
+    options x cache on/off x history kinds, all covered on every run"""
+    variants = nn_variants(rng)
+    reps = 2 if tier == 'quick' and not wide else 4
+    jobs = []
+    for rep in range(reps):
+        for cname, kn in variants:
+            for cache in (False, True):
+                if cache and cname in NO_CACHE:
+                    continue
+                jobs.append((cname, kn, cache))
+    rng.shuffle(jobs)
+    # history kinds: population-changing ones for the caching objects above all
+    kinds_pop = [k for k in HIST_KINDS if k not in ('single', 'again', 'move')]
+    kinds_sg = ['shrink-grow', 'shrink-grow-more', 'shrink-shrink-grow', 'empty-refill']
+    need_sg = {c for c in NNPS_MATRIX if c not in NO_CACHE}    # once per class at least
+    out = {s: [] for s in slots}
+    order = list(slots)
+    rng.shuffle(order)
+    for n, (cname, kn, cache) in enumerate(jobs):
+        slot = order[n % len(order)]
+        fam, kname, narr = slot
+        dims = [d for d in (1, 2, 3) if _dim_ok(kname, d)]
+        d = rng.choice(dims + [x for x in dims if x > 1])
+        n0 = {1: 90, 2: 300, 3: 500}[d]
+        ntot = int(n0 * rng.uniform(0.5, 1.2))
+        w = [rng.uniform(0.3, 1.0) for _ in range(narr)]
+        sizes = [max(4, int(ntot * x / sum(w))) for x in w]
+        if cache and cname in need_sg:
+            need_sg.discard(cname)
+            kind = rng.choice(kinds_sg)
+        elif rng.random() < 0.75:
+            kind = kinds_pop[(n // 2) % len(kinds_pop)]
+        else:
+            kind = rng.choice(['single', 'again', 'move'])
+        hstyle = rng.choice([0, 2, 3, 4, 2, 3]) if rng.random() < 0.85 else 1
+        cfg = {'dim': d, 'sizes': sizes, 'seed': rng.randrange(2 ** 30), 'nnps': cname,
+               'knobs': kn, 'cache': cache,
+               'fixed_h': rng.random() < 0.25 and kind in ('single', 'again'),
+               'sort_gids': rng.random() < 0.25,
+               'kernel_radius': rng.random() < 0.7,
+               'hstyle': hstyle, 'hscale': rng.choice([0.7, 1.0, 1.3]),
+               'wdeltap': rng.choice([0.8, 1.7, -1.0]),
+               'hist_kind': kind, 'history': gen_history(rng, kind, sizes), 'layer': 'nnps'}
+        out[slot].append(cfg)
+    return out
 
 
 def plan(seed, tier, wide=False):
@@ -379,6 +867,16 @@ def plan(seed, tier, wide=False):
                                          'nnps': nn, 'cache': rng.random() < 0.5, 'fixed_h': rng.random() < 0.4, 'sort_gids': rng.random() < 0.4,
                                          'wdeltap': rng.choice([0.8, 1.7, -1.0])})
                 tasks.append((fam, kname, narr, cfgs))
+    # the neighbour-search layer shares the generated modules of the plan above
+    rng2 = random.Random(seed * 7919 + 13 + (1 if wide else 0))
+    extra = plan_nn(rng2, tier, [t[:3] for t in tasks], None, wide)
+    tasks = [(f, k, n, cfgs + extra[(f, k, n)]) for f, k, n, cfgs in tasks]
+    # the model tie of the neighbour cache: one task per NNPS class
+    ncase = (6 if tier == 'quick' else 40) * (2 if wide else 1)
+    for cname in NNPS_MATRIX:
+        if cname in NO_CACHE:
+            continue
+        tasks.append(('cache-tie', cname, 0, [gen_cache_case(rng2, cname) for _ in range(ncase)]))
     only = os.environ.get('C09_ONLY')          # debugging aid: fam:kernel:narr
     if only:
         f, k, n = only.split(':')
@@ -395,44 +893,126 @@ def _dim_ok(kname, d):
 
 
 def start_system(tasks, nproc=int(os.environ.get("C09_NPROC", "16"))):
-    """submit every task (one generated module each) to worker processes"""
-    tasks = sorted(tasks, key=lambda t: -t[2] * len(FAMILIES[t[0]]))   # longest first
-    ex = concurrent.futures.ProcessPoolExecutor(max_workers=nproc)
-    return ex, [ex.submit(sys_task, t) for t in tasks], time.time()
+    """every task (one generated module each) goes to a worker process"""
+    return Runner(tasks, nproc).start()
 
 
-def collect_system(R, started):
-    ex, futs, t0 = started
+def fail_key(rec, what):
+    """class of failing input: failures of the neighbour-search layer (a
+    non-default option, the cache, a history) are named after the NNPS class"""
+    cfg = rec['cfg']
+    if cfg.get('layer') == 'nnps':
+        k = 'C09:nnps:%s:%s' % (cfg['nnps'], what)
+        if cfg.get('cache'):
+            k += ':cache'
+        if cfg.get('history') and rec.get('m', {}).get('round', 1) > 0:
+            k += ':history'
+        return k
+    return 'C09:%s:%s' % (rec['label'], what)
+
+
+def show_served(served):
+    return '|'.join(';'.join(H.ilist(l) for l in rd) if rd else '-' for rd in served)
+
+
+def check_cache_tie(R, ties):
+    """model `NbrCacheHist.runHist` vs the real NeighborCache objects"""
+    if not ties or not os.path.exists(H.vlib.driver_path('C09')):
+        return
+    out = H.run_model('C09', [t['line'] for t in ties])
+    if len(out) != len(ties):
+        raise SystemExit('model driver answered %d lines for %d' % (len(out), len(ties)))
+    for t, ans in zip(ties, out):
+        cfg = t['cfg']
+        impl = 'ok ' + show_served(t['served'])
+        hist = [o['op'] for o in cfg['history']]
+        shrunk = any(a == 'remove' and 'add' in hist[i + 1:] for i, a in enumerate(hist))
+        R.case('tie:' + t['line'], any(len(l) > 1 for rd in t['served'] for l in rd), None)
+        R.count('cache-tie:' + cfg['nnps'])
+        R.count('cache-tie:rounds', len(t['served']))
+        R.count('cache-tie:queries', sum(len(rd) for rd in t['served']))
+        if shrunk:
+            R.count('cache-tie:shrink-then-grow')
+        R.d['traces_validated_against_impl'] += 1
+        if ans.strip() != impl:
+            R.disagree({'cfg': cfg, 'line': t['line'][:3000]}, ans[:1500], impl[:1500],
+                       'neighbour-cache-history:%s' % cfg['nnps'])
+
+
+def collect_system(R, runner):
     nfail = 0
-    for fut in futs:
-        recs, dt = fut.result()
-        for rec in recs:
-            if 'error' in rec:
-                ex.shutdown(wait=False, cancel_futures=True)
+    nsys = 0
+    per_cfg = {}
+    ties = []
+    for rec in runner.run():
+        cfg = rec['cfg']
+        layer = cfg.get('layer') == 'nnps'
+        if rec.get('tie'):
+            ties.append(rec)
+            continue
+        if 'error' in rec:
+            if rec['stage'] in ('compile', 'harness'):
+                for st in runner.live.values():
+                    st['p'].kill()
                 raise SystemExit('system-level run failed (machinery): %r' % rec)
-            cfg = rec['cfg']
-            fp = json.dumps([rec['family'], rec['kernel'], cfg['dim'], cfg['sizes'],
-                             cfg['seed'], cfg['nnps'], rec['label']])
-            m = rec['m']
-            nontrivial = m['lin_scale'] > 0 or TAGINFO[rec['tag']][3] == 'density'
-            R.case(fp, nontrivial,
-                   {'part': 'system', 'family': rec['family'], 'kernel': rec['kernel'],
-                    'cfg': cfg, 'equation': rec['label'], 'measured': m}
-                   if R.d['evaluations'] % 997 == 0 else None)
-            R.count('sys:eq:' + rec['label'])
-            R.count('sys:kernel:' + rec['kernel'])
-            R.count('sys:nnps:' + cfg['nnps'])
-            R.count('sys:dim:%d' % cfg['dim'])
-            R.count('sys:narr:%d' % len(cfg['sizes']))
-            R.d['traces_validated_against_impl'] += 1
-            for what, demand, observed in rec['bad']:
-                nfail += 1
-                case = {'part': 'system', 'family': rec['family'], 'kernel': rec['kernel'],
-                        'cfg': dict(cfg, system=rec['system']), 'label': rec['label'],
-                        'tag': rec['tag']}
-                R.prop_fail('C09:%s:%s' % (rec['label'], what), case, demand, observed)
-    ex.shutdown()
-    R.note('system-level oracle: %d generated modules, %.0f s wall' % (len(futs), time.time() - t0))
+            # the property demands accelerations for every closed system, every
+            # neighbour algorithm: an exception, a crash or a hang is a failure
+            nfail += 1
+            what = {'crash': 'crash', 'timeout': 'timeout'}.get(rec['stage'], 'raises')
+            fam0 = FAMILIES.get(rec['family'], [('-', '-')])[0]
+            case = {'part': 'system', 'family': rec['family'], 'kernel': rec['kernel'],
+                    'cfg': cfg, 'label': fam0[0], 'tag': fam0[1]}
+            R.prop_fail('C09:nnps:%s:%s' % (cfg['nnps'], what), case,
+                        'accelerations with sum m a = 0 from %s(%s), cache=%s, history %s' % (
+                            cfg['nnps'], cfg.get('knobs') or {}, cfg['cache'],
+                            [o['op'] for o in cfg.get('history') or []]),
+                        rec['error'])
+            R.count('sysN:failed-run:' + what)
+            continue
+        fp = json.dumps([rec['family'], rec['kernel'], cfg['dim'], cfg['sizes'],
+                         cfg['seed'], cfg['nnps'], rec['label'], cfg.get('knobs'),
+                         cfg.get('hist_kind')])
+        m = rec['m']
+        nontrivial = m['scale_all_rounds'] > 0 or TAGINFO[rec['tag']][3] == 'density'
+        R.case(fp, nontrivial,
+               {'part': 'system', 'family': rec['family'], 'kernel': rec['kernel'],
+                'cfg': cfg, 'equation': rec['label'], 'measured': m}
+               if R.d['evaluations'] % 997 == 0 else None)
+        pre = 'sysN:' if layer else 'sys:'
+        R.count(pre + 'eq:' + rec['label'])
+        R.count(pre + 'kernel:' + rec['kernel'])
+        R.count(pre + 'nnps:' + cfg['nnps'])
+        R.count(pre + 'dim:%d' % cfg['dim'])
+        R.count(pre + 'narr:%d' % len(cfg['sizes']))
+        if layer:
+            ck = json.dumps([rec['family'], rec['kernel'], cfg['seed'], cfg['nnps']])
+            if ck not in per_cfg:
+                per_cfg[ck] = 1
+                R.count('sysN:cfg:cache=%d' % bool(cfg['cache']))
+                R.count('sysN:cfg:history:' + cfg['hist_kind'])
+                R.count('sysN:cfg:rounds', rec['rounds'])
+                R.count('sysN:cfg:hstyle:%d' % cfg['hstyle'])
+                for k, v in sorted((cfg.get('knobs') or {}).items()):
+                    R.count('sysN:cfg:%s:%s=%s' % (cfg['nnps'], k, v))
+                if not cfg.get('knobs'):
+                    R.count('sysN:cfg:%s:defaults' % cfg['nnps'])
+        R.d['traces_validated_against_impl'] += rec['rounds']
+        nsys += 1
+        if not nontrivial:
+            R.count(pre + 'trivial:' + cfg['nnps'])
+        for what, demand, observed in rec['bad']:
+            nfail += 1
+            # the full initial system only with the first failures (replay
+            # regenerates it from cfg['seed'] otherwise)
+            c = dict(cfg, system=rec['system']) if nfail <= 4 else cfg
+            case = {'part': 'system', 'family': rec['family'], 'kernel': rec['kernel'],
+                    'cfg': c, 'label': rec['label'], 'tag': rec['tag']}
+            R.prop_fail(fail_key(rec, what), case, demand, observed)
+    check_cache_tie(R, ties)
+    R.note('system-level oracle: %d generated modules, %d (configuration, equation) runs, '
+           '%d crashed, %d timed out, %.0f s wall' % (
+               runner.ntasks, nsys, runner.stats['crash'], runner.stats['timeout'],
+               time.time() - runner.t0))
     return nfail
 
 
@@ -715,20 +1295,63 @@ def replay(R, rp):
         print('replay: not a system-level case')
         return 0
     cfg = case['cfg']
-    meas, system = run_config(None, case['family'], case['kernel'], cfg)
-    bad = judge(case['label'], case['tag'], meas[case['label']])
-    print('equation %s, kernel %s, dim %d, nnps %s, arrays %s' % (
-        case['label'], case['kernel'], cfg['dim'], cfg['nnps'], cfg['sizes']))
-    print('measured on the real code:', json.dumps(meas[case['label']]))
-    for what, demand, observed in bad:
-        print('DEMAND  ', demand)
-        print('OBSERVED', observed)
-    return 1 if bad else 0
+    print('kernel %s, dim %d, arrays %s, %s(%s) cache=%s fixed_h=%s sort_gids=%s, history %s' % (
+        case['kernel'], cfg['dim'], cfg['sizes'], cfg['nnps'], cfg.get('knobs') or {},
+        cfg['cache'], cfg.get('fixed_h', False), cfg.get('sort_gids', False),
+        [(o['op'], o.get('n')) for o in cfg.get('history') or []]))
+    # in a child: a crash or a hang of the implementation is an answer too
+    runner = Runner([(case['family'], case['kernel'], len(cfg['sizes']), [cfg])], 1)
+    recs = list(runner.run())
+    nbad = 0
+    for rec in recs:
+        if 'error' in rec:
+            print('DEMAND   accelerations for this closed system')
+            print('OBSERVED', rec['error'])
+            nbad += 1
+            continue
+        if rec['bad']:
+            print('equation %s, measured on the real code: %s' % (rec['label'], json.dumps(rec['m'])))
+        for what, demand, observed in rec['bad']:
+            print('DEMAND  ', demand)
+            print('OBSERVED', observed)
+            nbad += 1
+    if not nbad:
+        print('all %d equations of the module conserve in all rounds' % len(recs))
+    return 1 if nbad else 0
 
 
 def corpus_tasks():
-    """minimised past failures; run first (none recorded on the clean tree)"""
-    return []
+    """minimised past failures (seeded defects the executed oracle once
+    missed), run first on every run: a multi-level StratifiedHashNNPS with a
+    sub-division option > 1 on three h populations, and shrink-then-grow
+    histories on caching NNPS objects"""
+    def hist(n1, nrem, nadd):
+        return [{'op': 'remove', 'arr': 0, 'seed': 11, 'n': nrem, 'how': 'stride'},
+                {'op': 'add', 'arr': 0, 'seed': 12, 'n': nadd}]
+    base = {'dim': 2, 'fixed_h': False, 'sort_gids': False, 'kernel_radius': True,
+            'hscale': 1.0, 'wdeltap': 0.8, 'layer': 'nnps'}
+    cfgs = [
+        dict(base, sizes=[600], seed=3, nnps='StratifiedHashNNPS', cache=False, hstyle=2,
+             knobs={'H': 3, 'num_levels': 3}, hist_kind='single', history=[]),
+        dict(base, sizes=[400], seed=4, nnps='LinkedListNNPS', cache=True, hstyle=0,
+             knobs={}, hist_kind='shrink-grow', history=hist(400, 120, 120)),
+        dict(base, sizes=[300], seed=5, nnps='ZOrderNNPS', cache=True, hstyle=3,
+             knobs={}, hist_kind='shrink-grow-more', history=hist(300, 100, 180)),
+    ]
+    return [('wc', 'CubicSpline', 1, cfgs)]
+
+
+def merge_tasks(first, rest):
+    """tasks of the same generated module become one task (one compile)"""
+    out, pos = [], {}
+    for f, k, n, cfgs in list(first) + list(rest):
+        if (f, k, n) in pos:
+            i = pos[(f, k, n)]
+            out[i] = (f, k, n, out[i][3] + list(cfgs))
+        else:
+            pos[(f, k, n)] = len(out)
+            out.append((f, k, n, list(cfgs)))
+    return out
 
 
 def main():
@@ -737,14 +1360,15 @@ def main():
         'cases = (A) one generated loop/pair function evaluated at Float vs the Python '
         'loop body on one random input, (B) one kernel-shape probe, (C) one equation '
         'evaluated by the real AccelerationEval on one random closed system '
-        '(kernel, dim, NNPS class, 1-3 arrays); distinct = distinct input line / '
-        'configuration; non-trivial = the body changed an accumulator (A), r > 0 (B), '
-        'sum m|a| > 0 (C)')
+        '(kernel, dim, NNPS class with its options, cache on/off, 1-3 arrays) in every round of '
+        'one history on the same NNPS object (particles removed / added / moved between '
+        'evaluations); distinct = distinct input line / configuration; non-trivial = the body '
+        'changed an accumulator (A), r > 0 (B), sum m|a| > 0 in some round (C)')
     if a.replay:
         sys.exit(replay(R, json.load(open(a.replay))))
     t0 = time.time()
     # the system-level oracle needs nothing from the translator: start it first
-    tasks = corpus_tasks() + plan(a.seed, a.tier)
+    tasks = merge_tasks(corpus_tasks(), plan(a.seed, a.tier))
     try:
         info = T.analyse(REPO)
         meta = T.public_meta(info)
